@@ -1,4 +1,5 @@
 import ESRVerif.Model.Library
+import ESRVerif.Model.Subs
 import ESRVerif.Driver.Util
 namespace ESR.Driver.Library
 open ESR ESR.Driver ESR.Library
@@ -6,7 +7,80 @@ open ESR ESR.Driver ESR.Library
 def strs (s : String) : List String := if s == "_" then [] else s.splitOn ","
 def fmtS (l : List String) : String := if l.isEmpty then "_" else ",".intercalate l
 
+/-! ### `lib-main`: duplicate_checker.main around do_sympy with a table-scripted CAS
+
+names: strings without `,` `>` `|` or blanks whose `a<j>` substrings give the parameter count;
+tokens: `nan` or an id — `n<i>`/`r<i>` ({ai: -ai}, {ai: 1/ai}), `s<i><j>`/`S<i><j>` (the two printed forms of a swap) are
+self-inverse templates when their indices are below max_param, anything else is not;
+chain: `N` (None), `E` ([]), or tokens joined by `+`;  round table: `name>name'>chain` joined by `,` (`_` = empty);
+tables: round tables joined by `|` (`-` = none). -/
+
+def hasParam (s : String) (j : Nat) : Bool := (s.splitOn ("a" ++ toString j)).length > 1
+
+def parseTok (t : String) : Entry String := if t == "nan" then .nan else .map t
+
+def parseChain (c : String) : OChain String :=
+  if c == "N" then none else if c == "E" then some [] else some ((c.splitOn "+").map parseTok)
+
+def fmtTok : Entry String → String
+  | .nan => "nan"
+  | .map t => t
+
+def fmtRow (r : List (Entry String)) : String := if r.isEmpty then "E" else "+".intercalate (r.map fmtTok)
+def fmtRows (rs : List (List (Entry String))) : String := if rs.isEmpty then "_" else ";".intercalate (rs.map fmtRow)
+
+def digitAt (t : String) (k : Nat) : Option Nat := (t.toList[k]?).bind (fun c => (String.singleton c).toNat?)
+
+def isDupTok (mp : Nat) (t : String) : Bool :=
+  match t.toList.head? with
+  | some 'n' | some 'r' => (digitAt t 1).any (· < mp) && t.length == 2
+  | some 's' | some 'S' => (digitAt t 1).any (· < mp) && (digitAt t 2).any (· < mp) && t.length == 3
+  | _ => false
+
+abbrev Table := List (String × String × OChain String)
+
+def parseTable (s : String) : Option Table :=
+  if s == "_" then some [] else
+  (s.splitOn ",").mapM (fun e => match e.splitOn ">" with
+    | [a, b, c] => some (a, b, parseChain c)
+    | _ => none)
+
+def tableOracle (tables : List Table) (g : Nat) : Oracle String String :=
+  pointwiseOracle (fun _ s => match (tables.getD g []).find? (·.1 == s) with
+    | some (_, s', c) => (s', c)
+    | none => (s, none))
+
+def tokensOf (tables : List Table) : List String :=
+  (tables.flatMap (fun t => t.flatMap (fun e => (e.2.2.getD []).filterMap (fun x => match x with
+    | .map m => some m
+    | .nan => none)))).eraseDups
+
+def fmtRound (r : RoundOut String) : String :=
+  s!"{if r.expandFun then 1 else 0}{if r.checkPerm then 1 else 0}:{fmtNatList r.idx}:{fmtRows r.subs}"
+
+def runMain (gen exOrig sympS tablesS permS : String) : Option String := do
+  let symp ← if sympS == "_" then some [] else (sympS.splitOn ",").mapM (fun e => match e.splitOn ">" with
+    | [a, b] => some (a, b)
+    | _ => none)
+  let tables ← if tablesS == "-" then some [] else (tablesS.splitOn "|").mapM parseTable
+  let perm ← parseNatList permS
+  let toks := tokensOf tables
+  let cancel := fun (mp : Nat) (c : Option (List (Entry String))) =>
+    ESR.Subs.simplifyInvSubs ((toks.filter (isDupTok mp)).map Entry.map) c
+  let gen := strs gen
+  match dupMain hasParam (fun s => ((symp.find? (·.1 == s)).map (·.2)).getD s) (tableOracle tables) cancel "?"
+      64 (gen.length + 3) gen (strs exOrig) perm with
+  | .error e => some s!"error:{e}"
+  | .ok o =>
+    let r := o.res
+    some (joinSp [s!"ok mp={o.maxParam}", s!"alleq={fmtS o.allEq}", s!"nround={r.nround}",
+      s!"fin={if r.finished then 1 else 0}", s!"fun={fmtS r.allFun}", s!"kexp={fmtS r.keysExpand}",
+      s!"kfac={fmtS r.keysFactor}",
+      s!"rounds={if r.rounds.isEmpty then "-" else "|".intercalate (r.rounds.map fmtRound)}",
+      s!"uniq={fmtS o.uniq}", s!"match={fmtNatList o.matchIdx}", s!"inv={fmtRows o.invSubs}"])
+
 def handle : Handler
+  | ["lib-main", gen, exOrig, symp, tables, perm] => runMain gen exOrig symp tables perm
   | ["lib-uniq", l] =>
       let l := strs l
       let us := uniqueKeys l
